@@ -44,8 +44,9 @@ def main():
             print(f, "alarms:", [p for p, x in res.items() if x["rc"] != 0], flush=True)
         finally:
             sh(["git", "-C", "/repo", "worktree", "remove", "--force", wt])
+            import hashlib, shutil
+            shutil.rmtree(os.path.join(VERIF, "build", "alt_" + hashlib.sha1(wt.encode()).hexdigest()[:8]), ignore_errors=True)
         json.dump(results, open(os.path.join(HD, "results.json"), "w"), indent=1, sort_keys=True)
-    sh(["python3", os.path.join(VERIF, "tools/setup.py")], cwd=VERIF)
 
 if __name__ == "__main__":
     main()
